@@ -209,7 +209,8 @@ class _Run:
             items = []
             for i, c in enumerate(kids):
                 gw = (spec.get("given") or [0])[i % len(spec.get("given") or [0])]
-                items.append((gw, c.w) if gw else c.w)
+                # gw > 0: ('given', gw); gw == 0: default weight; gw < 0: ('given', 0), a column that is never displayed
+                items.append((max(gw, 0), c.w) if gw else c.w)
             base = urwid.Columns(items, dividechars=spec.get("div", 0))
             fp = spec.get("fp")
             if fp is not None and kids:
@@ -854,7 +855,7 @@ class _Run:
             c.parent = n
         if cls == "ListBox":
             items = [c.w for c in new]
-        elif cls == "Columns" and op.get("given"):
+        elif cls == "Columns" and op.get("given") is not None:
             items = [(c.w, b.options("given", int(op["given"]))) for c in new]
         else:
             items = [(c.w, b.options()) for c in new]
@@ -1064,7 +1065,7 @@ class ContainersEngine(Engine):
             if kind == "Columns":
                 spec["div"] = rng.choice([0, 0, 1])
                 if rng.random() < 0.3:
-                    spec["given"] = [rng.choice([0, 3, 6]) for _ in range(3)]
+                    spec["given"] = [rng.choice([0, 3, 6, -1]) for _ in range(3)]
             if kind == "GridFlow":
                 spec.update(cw=rng.choice([3, 5, 8]), hsep=rng.choice([0, 1]), vsep=rng.choice([0, 0, 1]))
             if kind == "ListBox":
@@ -1181,7 +1182,7 @@ class ContainersEngine(Engine):
                 if m == "insert" and rng.random() < 0.15:
                     op.update(i=rng.choice([-1, -2, 7]), raw=True)
                 if rng.random() < 0.15:
-                    op["given"] = rng.choice([2, 4])
+                    op["given"] = rng.choice([2, 4, 0])
                 ops.append(op)
             elif q < 0.84:
                 part = rng.choice(FRAME_PARTS)
